@@ -17,6 +17,7 @@ inductive Err
   | leaf (text : List Char) (ids : List String)
   | api (errCode : Nat) (desc : List Char)
   | wrap (pre post : List Char) (inner : Err)                       -- fmt.Errorf(pre + "%w" + post, inner)
+  | wrap2 (pre mid post : List Char) (a b : Err)                    -- fmt.Errorf(pre + "%w" + mid + "%w" + post, a, b); errors.Join(a, b) with mid = "\n"
   | timeout0 (op dur : List Char)                                   -- &TimeoutError{Op, Timeout, nil}
   | timeout1 (op dur : List Char) (inner : Err)                     -- &TimeoutError{Op, Timeout, inner}
   | election0 (code inst reason : List Char)
@@ -50,6 +51,7 @@ def Err.text : Err → List Char
   | .leaf t _ => t
   | .api _ d => kNats ++ d
   | .wrap pre post e => pre ++ (e.text ++ post)
+  | .wrap2 pre mid post a b => pre ++ (a.text ++ (mid ++ (b.text ++ post)))
   | .timeout0 op dur =>
       if op.isEmpty then kOpTimedOut ++ dur
       else kOperation ++ (op ++ (kTimedOutAfter ++ dur))
@@ -77,6 +79,7 @@ def Err.is (t : String) : Err → Bool
   | .leaf _ ids => ids.contains t
   | .api code _ => t == "nats.ErrKeyExists" && code == 10071
   | .wrap _ _ e => e.is t
+  | .wrap2 _ _ _ a b => a.is t || b.is t        -- (`Unwrap() []error`: every branch is searched)
   | .timeout0 _ _ => false
   | .timeout1 _ _ e => e.is t
   | .election0 _ _ _ => false
@@ -97,6 +100,7 @@ def Err.asTimeout : Err → Bool
   | .leaf _ _ => false
   | .api _ _ => false
   | .wrap _ _ e => e.asTimeout
+  | .wrap2 _ _ _ a b => a.asTimeout || b.asTimeout
   | .timeout0 _ _ => true
   | .timeout1 _ _ _ => true
   | .election0 _ _ _ => false
